@@ -195,7 +195,7 @@ func execRK(o hx.Op) string {
 			if err != nil {
 				status = "err"
 			}
-		case <-time.After(30 * time.Second):
+		case <-time.After(10 * time.Second):
 			status = "hang"
 		}
 	}
@@ -296,7 +296,7 @@ func execRK(o hx.Op) string {
 	go func() { wg.Wait(); close(done) }()
 	select {
 	case <-done:
-	case <-time.After(45 * time.Second):
+	case <-time.After(25 * time.Second):
 		status = "hang"
 	}
 	if status == "ok" {
@@ -310,7 +310,7 @@ func execRK(o hx.Op) string {
 		}
 		t0 := time.Now()
 		for ss.nrecv.Load() < wantS || cs.nrecv.Load() < wantC {
-			if time.Since(t0) > 30*time.Second {
+			if time.Since(t0) > 15*time.Second {
 				status = "lost"
 				break
 			}
